@@ -365,6 +365,28 @@ def wl_deep(ctx, rng, i):
                     observe(ctx, "JSON nested %d levels given as %s via parse" % (depth, form), lambda: stix2.parse(mk()), {"depth": depth, "form": form, "text_head": text[:40]})
                     observe(ctx, "JSON nested %d levels given as %s via parse_observable" % (depth, form), lambda: stix2.parse_observable(mk(), version="2.1"), {"depth": depth, "form": form})
                 ctx.count("undecodable_texts")
+            # ... and sitting in a file a store is pointed at (the stores read their files themselves)
+            import os
+            import shutil
+            import tempfile
+            tmpd = tempfile.mkdtemp(prefix="stixmon-c17-")
+            try:
+                deep_text = '{"type":"identity","id":"identity--d83fce45-ef58-4c6c-a3f4-1fbc32e98c6e","x":' + '{"a":' * depth + "1" + "}" * depth + "}"
+                fp = os.path.join(tmpd, "deep.json")
+                with open(fp, "w") as f:
+                    f.write(deep_text)
+                os.makedirs(os.path.join(tmpd, "fs", "identity"))
+                shutil.copy(fp, os.path.join(tmpd, "fs", "identity", "identity--d83fce45-ef58-4c6c-a3f4-1fbc32e98c6e.json"))
+                src = stix2.FileSystemSource(os.path.join(tmpd, "fs"), allow_custom=True)
+                for rname, fn in (("MemoryStore.load_from_file", lambda: stix2.MemoryStore(allow_custom=True).load_from_file(fp)),
+                                  ("MemorySource.load_from_file", lambda: stix2.MemorySource(allow_custom=True).load_from_file(fp)),
+                                  ("FileSystemSource.get", lambda: src.get("identity--d83fce45-ef58-4c6c-a3f4-1fbc32e98c6e")),
+                                  ("FileSystemSource.all_versions", lambda: src.all_versions("identity--d83fce45-ef58-4c6c-a3f4-1fbc32e98c6e")),
+                                  ("FileSystemSource.query", lambda: src.query([stix2.Filter("type", "=", "identity")]))):
+                    observe(ctx, "a file holding JSON nested %d levels via %s" % (depth, rname), fn, {"depth": depth, "route": rname})
+                ctx.count("undecodable_files")
+            finally:
+                shutil.rmtree(tmpd, ignore_errors=True)
     check_state(ctx, reg0, {"version": ver, "type": t, "workload": "deep"})
 
 
@@ -951,7 +973,60 @@ def wl_redeclared(ctx, rng, i):
         ctx.nontrivial("redeclared", kind, ver, special, shape, json.dumps(v))
 
 
+def wl_refusals(ctx, rng, i):
+    """The refusals of the rest of the public surface (assignment, versioning, marking, registration, TLP instances): each comes from
+    the error family, and each error object can be shown (the error monitor prints every one created)."""
+    import stix2
+    import stix2.markings as mk
+    import stix2.versioning
+    from stix2 import properties as P
+    ver = VERSIONS[i % 2]
+    mod = stix2.v20 if ver == "2.0" else stix2.v21
+    ts = "2020-01-01T00:00:00.000Z"
+    ident = mod.Identity(name="n", identity_class="individual", created=ts, modified=ts)
+    sco = stix2.v21.File(name="f.txt")
+    w = {"version": ver}
+    probes = [
+        ("attribute assignment", lambda: setattr(ident, "name", "m")), ("item assignment", lambda: __import__("operator").setitem(ident, "name", "m")),
+        ("new_version(id=...)", lambda: ident.new_version(id="identity--" + V.uuid_text(rng, 4))), ("new_version(created=...)", lambda: ident.new_version(created="2021-01-01T00:00:00Z")),
+        ("new_version(type=...)", lambda: stix2.versioning.new_version(json.loads(ident.serialize()), type="malware")),
+        ("new_version of an observable", lambda: stix2.versioning.new_version(sco, name="g")), ("new_version of a dictionary without versioning properties", lambda: stix2.versioning.new_version({"type": "x-thing", "id": "x-thing--" + V.uuid_text(rng, 4)}, name="g")),
+        ("new_version of a versionable type's dictionary lacking created", lambda: stix2.versioning.new_version({"type": "identity", "id": "identity--" + V.uuid_text(rng, 4), "name": "n"}, name="g")),
+        ("revoke twice", lambda: ident.revoke().revoke()), ("new_version after revoke", lambda: ident.revoke().new_version(name="m")),
+        ("remove a marking that is not there", lambda: mk.remove_markings(ident, "marking-definition--" + V.uuid_text(rng, 4), None)),
+        ("remove a granular marking that is not there", lambda: mk.remove_markings(ident, "marking-definition--" + V.uuid_text(rng, 4), ["name"])),
+        ("clear markings where there are none", lambda: mk.clear_markings(ident.new_version(object_marking_refs=["marking-definition--" + V.uuid_text(rng, 4)]), ["name"])),
+        ("marking with a selector that addresses nothing", lambda: mk.add_markings(ident, "marking-definition--" + V.uuid_text(rng, 4), ["no_such_property"])),
+        ("TLP marking with another id", lambda: mod.MarkingDefinition(definition_type="tlp", definition={"tlp": "green"}, created=ts)),
+        ("TLP marking with another created", lambda: mod.MarkingDefinition(id="marking-definition--34098fce-860f-48ae-8e50-ebd3cc5e41da", definition_type="tlp", definition={"tlp": "green"}, created="2018-01-01T00:00:00.000Z")),
+        ("duplicate registration", lambda: mod.CustomObject("identity", [("prop_one", P.StringProperty())])(type("Body", (object,), {}))),
+        ("duplicate extension registration", lambda: mod.CustomExtension("ntfs-ext", [("prop_one", P.StringProperty())])(type("Body", (object,), {}))),
+        ("missing required properties", lambda: mod.Identity()), ("mutually exclusive properties", lambda: stix2.v21.Artifact(payload_bin="AAAA", url="http://x", hashes={"MD5": "0" * 32})),
+        ("dependent properties", lambda: stix2.v21.Artifact(url="http://x")), ("at least one property", lambda: stix2.v21.Process()),
+        ("invalid object reference", lambda: stix2.v20.ObservedData(first_observed=ts, last_observed=ts, number_observed=1, objects={"0": {"type": "directory", "path": "/", "contains_refs": ["9"]}})),
+        ("custom content", lambda: mod.Identity(name="n", identity_class="individual", x_foo=1)), ("unknown type", lambda: stix2.parse({"type": "x-nobody-registered-this", "id": "x-nobody-registered-this--" + V.uuid_text(rng, 4)})),
+        ("2.1 observable with a custom id-contributing dictionary", lambda: _hashy()(hashes={"foo": "bar"}, val="v")),
+    ]
+    lab, fn = probes[(i // 2) % len(probes)]
+    ctx.see("refusal probes", lab)
+    observe(ctx, "refusal: " + lab, fn, dict(w, probe=lab))
+    ctx.nontrivial("refusal", ver, lab)
+
+
+_HASHY = {}
+
+
+def _hashy():
+    import stix2
+    from stix2 import properties as P
+    if "cls" not in _HASHY:
+        _HASHY["cls"] = stix2.v21.CustomObservable("x-stixmon-c17-hashy", [("hashes", P.DictionaryProperty(spec_version="2.1")), ("val", P.StringProperty())], ["hashes"])(type("Body", (object,), {}))
+    return _HASHY["cls"]
+
+
+PRINTABLE_ERRORS = True
 WORKLOADS = [
+    Workload("refusals", wl_refusals, quick=104, thorough=520),
     Workload("redeclared-names", wl_redeclared, quick=256, thorough=2560),
     Workload("ref-named-properties", wl_ref_names, quick=308, thorough=1540),
     Workload("toplevel-extensions", wl_toplevel, quick=96, thorough=4800),
